@@ -167,6 +167,8 @@ def snapshot(s):
         "timers": [[k, qj(t.timeout), qj(t.expire_time), bool(t.stopped)] for k, t in s.timers.items()],
         "sent": list(s.sent_packets.keys()),
         "tok": len(st.items), "pend": pend, "wait": waiting, "wake": wake, "fin": bool(s._finished),
+        "cub": ([qj(cc.W_last_max), qj(cc.epoch_start), qj(cc.origin_point), qj(cc.d_min), qj(cc.W_tcp), qj(cc.K), int(cc.ack_cnt)]
+                if hasattr(cc, "W_last_max") else None),
     }
 
 
@@ -256,6 +258,29 @@ def coq_err(r):
     if r[0] == "ValueError":
         return "(Some TimerValue)"
     return "(Some OtherErr)"
+
+
+def coq_cubic(p):
+    c = p["cub"]
+    return f"(mkcub {cf.q(c[0])} {cf.q(c[1])} {cf.q(c[2])} {cf.q(c[3])} {cf.q(c[4])} {cf.q(c[5])} {cf.z(c[6])})"
+
+
+def coq_xevent(e):
+    ev = e["ev"]
+    if ev[0] == "ack":
+        return f"(XAck {cf.z(ev[1])} {cf.z(ev[2])} {cf.q(ev[3])} {cf.q(e['t'])})"
+    if ev[0] == "exp":
+        return f"(XExpire {cf.z(ev[1])})"
+    if ev[0] == "cb":
+        return "XStoreCb"
+    if ev[0] == "wake":
+        return "XWake"
+    raise ValueError(ev)
+
+
+def coq_xentry(e):
+    tx = cf.lst([cf.pair(cf.z(t[0]), cf.z(t[1])) for t in e["tx"]])
+    return f"(mkxentry {coq_xevent(e)} {tx} {coq_state(e['post'])} {coq_cubic(e['post'])} {coq_err(e['raised'])})"
 
 
 def coq_entry(e):
